@@ -108,6 +108,20 @@ fn routes_agree(mode: GameMode, pts: &[PathControlPoint], len: Option<f64>) -> R
         {
             return Err(format!("the borrowed curve computed on reused buffers (history {hi}) differs from the fresh owned curve"));
         }
+        // the borrowed curve's own accessors against the owned curve's
+        for q in [-0.5f64, 0.0, 0.25, 0.5, 0.999, 1.0, 1.5] {
+            let (pb, pw) = (b.position_at(q), want.position_at(q));
+            if !same_pos(pb, pw) || b.progress_to_dist(q).to_bits() != want.progress_to_dist(q).to_bits() {
+                return Err(format!("BorrowedCurve::position_at / progress_to_dist({q}) differ from the owned curve's"));
+            }
+            let d = want.progress_to_dist(q);
+            if b.idx_of_dist(d) != want.idx_of_dist(d) || !same_pos(b.interpolate_vertices(b.idx_of_dist(d), d), want.interpolate_vertices(want.idx_of_dist(d), d)) {
+                return Err(format!("BorrowedCurve::idx_of_dist / interpolate_vertices at progress {q} differ from the owned curve's"));
+            }
+        }
+        if b.dist().to_bits() != want.dist().to_bits() {
+            return Err("BorrowedCurve::dist differs from the owned curve's".into());
+        }
         // the owned route on the same used buffers
         let o = Curve::new(mode, pts, len, &mut bufs);
         if !(o.path().len() == want.path().len()
